@@ -38,6 +38,8 @@ PartitionInvariance ==
 OnePiece == \A i \in 1..Len(Streams) : ~Streams[i].ts =>
               Feed(Streams[i].bytes, S0(FALSE, TRUE, 0), Len(Streams[i].bytes)).d.out = Frames(Streams[i].bytes, Len(Streams[i].bytes))
 Recovery == s.ce = Len(X) /\ mode = 0 => IsSuffix(Streams[sid].sent, s.d.out)
+\* weaker reading: a packet whose length field reaches into the following packet damages that one too
+RecoveryClaimed == s.ce = Len(X) /\ mode = 0 => IsSuffix(Streams[sid].sentc, s.d.out)
 NoLookaheadOverrun == ~s.bad /\ s.rd <= s.ce /\ s.left <= s.rd /\ s.tn <= s.rd
 Consumed == mode = 0 => s.rd = s.ce           \* a feed call uses up its buffer
 
@@ -69,7 +71,9 @@ PesDamage == <<
    SubSeq(Pk(5), 1, 12) \o <<3>> \o SubSeq(Pk(5), 13, 33),   \* one byte inserted
    Pk(5) \o <<0>> >>                               \* stray byte between packets
 
-PesStreams == [i \in 1..Len(PesDamage) |-> [ts |-> FALSE, pid |-> 0, bytes |-> PesDamage[i] \o Tail4, sent |-> Sent4]]
+Reaches == {3, 9}             \* damage whose PES_packet_length covers the head of the first intact packet
+PesStreams == [i \in 1..Len(PesDamage) |-> [ts |-> FALSE, pid |-> 0, bytes |-> PesDamage[i] \o Tail4, sent |-> Sent4,
+                                             sentc |-> IF i \in Reaches THEN <<Deliv(3)>> ELSE Sent4]]
 
 Ts(i, cc) == TsPackets(Pk(i), 291, cc, TRUE)            \* 3 packets each
 TsTail == Ts(1, 5) \o Ts(2, 8) \o Ts(3, 11) \o Ts(4, 14)
@@ -84,7 +88,7 @@ TsDamage == <<
    SubSeq(Ts(5, 2), 1, 20) \o <<1, 1>> \o SubSeq(Ts(5, 2), 21, 45),  \* two bytes inserted: sync lost
    SetAt(Ts(5, 2), 16, 128),                                       \* transport error indicator
    SetAt(Ts(5, 2), 16, 65) >>                                      \* unexpected payload unit start
-TsStreams == [i \in 1..Len(TsDamage) |-> [ts |-> TRUE, pid |-> 291, bytes |-> TsDamage[i] \o TsTail, sent |-> Sent4]]
+TsStreams == [i \in 1..Len(TsDamage) |-> [ts |-> TRUE, pid |-> 291, bytes |-> TsDamage[i] \o TsTail, sent |-> Sent4, sentc |-> Sent4]]
 
 StreamsQ == SubSeq(PesStreams, 1, 4) \o SubSeq(TsStreams, 1, 3)
 StreamsT == PesStreams \o TsStreams
